@@ -70,6 +70,8 @@ def tasks(tier, seed):
         hists += ["CRER", "ARCE", "CCRE"]
         # removals by id (X removes the most recently added cluster still present)
         hists += ["CX", "CCX", "ACX", "CAX", "ACCX", "ACCXR", "CXC", "ACXC", "CCXX", "ACRX", "CRXR", "ACCXX", "CAXC"]
+        # removals that leave a gap in the ids (Y removes the oldest cluster still present), followed by another removal
+        hists += ["CCY", "CCCYX", "CCCYY", "CCYC", "ACCYX", "CCCYXR", "CCYX", "CCCYRX"]
     else:
         hists += ["".join(h) for h in itertools.product(ops, repeat=4)]
     for h in hists:
@@ -184,6 +186,26 @@ HSHAPE = (1, 2)
 HS = SIZES[0]
 
 
+def _remove(ch, ids, xp):
+    """Removal by id only filters rows of the (real pandas) table by concrete labels: it runs against real numpy also in the symbolic
+    run - except for the reset of the cached array, which must stay a stand-in array."""
+    import sys
+
+    import numpy as real_np
+
+    mod = sys.modules["pyxel.data_structure.charge"]
+    if xp is real_np or mod.np is real_np:
+        ch.remove_from_frame(ids)
+        return
+    shim = type(sys)("vx_np_for_removal")
+    shim.__getattr__ = lambda name: getattr(xp, name) if name in ("zeros_like", "zeros") else getattr(real_np, name)  # type: ignore[attr-defined]
+    saved, mod.np = mod.np, shim
+    try:
+        ch.remove_from_frame(ids)
+    finally:
+        mod.np = saved
+
+
 def _run_history(ops, xp, arrs, clus):
     """Shared by the symbolic and the concrete run.  Returns list of reads (after each R and a final one)."""
     from pyxel.data_structure import Charge
@@ -204,7 +226,11 @@ def _run_history(ops, xp, arrs, clus):
         elif op == "X":
             # removal by id of the most recently added cluster that is still there
             if batches:
-                ch.remove_from_frame(batches.pop())
+                _remove(ch, batches.pop(), xp)
+        elif op == "Y":
+            # removal by id of the oldest cluster still there (leaves a gap in front of the later ids)
+            if batches:
+                _remove(ch, batches.pop(0), xp)
         elif op == "R":
             reads.append(ch.array.copy())
         elif op == "E":
@@ -254,6 +280,10 @@ def history(ops):
             if live:
                 n, y, x = live.pop()
                 _credit(acc, HSHAPE, HS[0], HS[1], -n, y, x)  # exactly that cluster's charge goes, nothing else
+        elif op == "Y":
+            if live:
+                n, y, x = live.pop(0)
+                _credit(acc, HSHAPE, HS[0], HS[1], -n, y, x)
         elif op == "R":
             want.append(list(acc[0]))
         elif op == "E":
@@ -358,9 +388,9 @@ def replay(oid, kwargs, model, data):
                 else:
                     live.append(None)
                 ic += 1
-            elif op == "X":
+            elif op in ("X", "Y"):
                 if live:
-                    last = live.pop()
+                    last = live.pop() if op == "X" else live.pop(0)
                     if last is not None:
                         acc = acc.copy()
                         acc[last[0], last[1]] -= last[2]
